@@ -78,10 +78,15 @@ func genClientPrograms(r *rand.Rand, relax Relax) [][]Op {
 		}
 		progs = append(progs, ops)
 	}
-	// Scope (documented in DESIGN.md): an entry that one client holds open is not
-	// removed, renamed or replaced by a rename of ANOTHER client. STFS binds a
-	// handle to its path, POSIX to the inode, Windows refuses the call: no
-	// uniform reference behaviour exists for these interleavings.
+	scopeFilter(progs)
+	return progs
+}
+
+// scopeFilter enforces the documented scope of C11: an entry that one client
+// holds open is not removed, renamed or replaced by a rename of ANOTHER client.
+// STFS binds a handle to its path, POSIX to the inode, Windows refuses the call:
+// no uniform reference behaviour exists for these interleavings.
+func scopeFilter(progs [][]Op) {
 	related := func(a, b string) bool {
 		return a == b || strings.HasPrefix(a, b+"/") || strings.HasPrefix(b, a+"/")
 	}
@@ -106,18 +111,48 @@ func genClientPrograms(r *rand.Rand, relax Relax) [][]Op {
 			}
 		}
 	}
-	return progs
 }
 
 func init() {
 	Register(&Check{
 		ID: "C11", Level: "exploration", Tech: "deterministic simulation: seeded cooperative scheduler over real goroutines (lock acquisition, goroutine start and drive-seam yields are scheduling points), exact deadlock detection, porcupine linearizability of the recorded history against RefFS, rebuild restart at the end; plus a free-running -race build of the same programs",
 		Rule:      "2-8 client programs of 1-4 API-level operations each (mkdir, mkdirall, create/write/close, open/read/close, rename, remove, chmod, stat, readdir) over shared and private paths run under a seeded schedule (stickiness and drive-seam preemption probability are swarm parameters); every call's invoke/return is stamped with a global sequence number; oracles: all clients finish (else the wait-for graph), no panic, the history plus the final observed tree is linearizable w.r.t. RefFS (porcupine, 20 s budget, 'unknown' is counted, not reported), and the final state equals a rebuild from the tape; race mode: the same programs free-running in a -race build; non-trivial = at least one context switch inside the run and >= 2 clients touching a shared path; distinct by (programs, context-switch hash)",
-		QuickRuns: 600, QuickSecs: 60, ThoroughRuns: 60000, ThoroughSecs: 1500,
+		QuickRuns: 2500, QuickSecs: 60, ThoroughRuns: 120000, ThoroughSecs: 1500,
 		Assumptions: []string{"reads are whole-file single-call reads while finding KF6 (partially read handle keeps the drive) is open", "porcupine 'Unknown' verdicts are inconclusive and counted"},
 		Gen: func(r *rand.Rand, tier string, relax Relax) *Case {
 			c := &Case{Cfg: GenConfig(r, 0.7), P: map[string]int64{}, S: map[string]string{}}
 			c.Progs = genClientPrograms(r, relax)
+			if r.Float64() < 0.3 {
+				// conflict templates: one caller works below a directory that another
+				// caller removes or renames at the same time (check-then-act windows)
+				child := []Op{{K: "mkdir", P: "/s/x", M: 0o755}}
+				switch r.IntN(4) {
+				case 1:
+					child = []Op{{K: "mkdirall", P: "/s/x/m", M: 0o755}}
+				case 2:
+					child = []Op{{K: "create", P: "/s/f", H: 901}, {K: "h.close", H: 901}}
+				case 3:
+					child = []Op{{K: "rename", P: "/t", Q: "/s/t"}}
+				}
+				parent := []Op{{K: "remove", P: "/s"}}
+				if r.IntN(2) == 0 {
+					parent = []Op{{K: "rename", P: "/s", Q: "/u"}}
+				}
+				c.Progs = append([][]Op{child, parent}, c.Progs[:min(len(c.Progs), 1+r.IntN(2))]...)
+				c.Ops = append(c.Ops, Op{K: "mkdir", P: "/s", M: 0o755}, Op{K: "writefile", P: "/t", D: &Data{Len: 10, Kind: "text", Tag: 0x7778}})
+				scopeFilter(c.Progs)
+			} else
+			// sequential setup before the clients start: the shared paths often exist already,
+			// so that parent/child and same-entry conflicts are the common case
+			if r.Float64() < 0.7 {
+				c.Ops = append(c.Ops, Op{K: "mkdir", P: "/s", M: 0o755})
+				if r.Float64() < 0.5 {
+					c.Ops = append(c.Ops, Op{K: "mkdir", P: "/s/y", M: 0o755})
+				}
+			}
+			if r.Float64() < 0.4 {
+				c.Ops = append(c.Ops, Op{K: "writefile", P: "/t", D: &Data{Len: 100, Kind: "text", Tag: 0x7777}})
+			}
 			c.P["stick"] = int64(r.IntN(100))
 			c.P["yield"] = int64([]int{0, 0, 5, 20, 50}[r.IntN(5)])
 			return c
@@ -151,6 +186,13 @@ func evalC11(t *testing.T, c *Case, st *Stats, relax Relax) *Violation {
 			finished = true
 			return
 		}
+		setup := NewExec(stk.FS, s)
+		for _, op := range c.Ops {
+			call := seq.Add(1)
+			res := setup.Do(op)
+			hist = append(hist, histEntry{Client: len(c.Progs) + 1, Op: op, Res: res, Call: call, Ret: seq.Add(1)})
+		}
+		setup.CloseAll()
 		results := make([][]histEntry, len(c.Progs))
 		var tasks []*Task
 		for ci, prog := range c.Progs {
